@@ -204,7 +204,7 @@ func (v *c18Verdict) sig(base string, tag string) string {
 // observed it (get, GetPartIds or the idle-state check); otherwise it is the
 // observation class qualified by inner store kind and tag.
 func (v *c18Verdict) partSig(part int, t int64, expClass, gotClass, class, tag string) string {
-	var stalePut, staleDel, premature bool
+	var stalePut, staleDel, premature, nonOwnerFin bool
 	for _, so := range v.out.Stale {
 		if so.Part == part && (t == 0 || so.Begin < t) {
 			if so.Kind == "stale-put" {
@@ -213,6 +213,7 @@ func (v *c18Verdict) partSig(part int, t int64, expClass, gotClass, class, tag s
 				staleDel = true
 			}
 			premature = premature || so.Premature
+			nonOwnerFin = nonOwnerFin || so.FinalizedByNonOwner
 		}
 	}
 	expPresent := expClass == "committed-put" || expClass == "committed-empty-put"
@@ -233,6 +234,9 @@ func (v *c18Verdict) partSig(part int, t int64, expClass, gotClass, class, tag s
 		how := "replay-after-lost-claim"
 		if premature {
 			how = "replay-after-takeover-before-lease-expiry"
+		}
+		if nonOwnerFin {
+			how = "replay-of-entry-finalized-by-non-owner"
 		}
 		return fmt.Sprintf("%s:%s:%s:inner=%s", how, cause, effect, v.innerTag)
 	}
